@@ -31,12 +31,15 @@ const DURSETS: [&[u64]; 5] = [
     &[0, 1, 1_000_000, 0],
     &[1_000_000],
     &[3_000_000, 1_000_000, 2_000_000, 0],
-    &[700_000, 700_000, 1_400_000],
+    &[1_500_000, 1_500_000, 3_000_000],
 ];
-const GAPS: [u64; 6] = [0, 0, 300_000, 1_000_000, 700_000, 2_000_000];
-/// without stalls virtual time passes only while everybody is blocked, so the timer thread is never late;
-/// one polling quantum of the virtual clock is allowed for.
-const SLACK: u64 = 20_000;
+const GAPS: [u64; 6] = [0, 0, 500_000, 1_000_000, 1_500_000, 2_000_000];
+/// Without stalls virtual time passes while everybody is blocked - then a parked timer thread wakes exactly at its
+/// deadline - or, rarely, in polling quanta of 20 us while every runnable thread has just lost a lock race (the
+/// harness cannot tell that from polling).  10 000 runs of the unchanged tree: 97% of the runs 0, 3% one quantum,
+/// 3 runs two, 1 run three.  All durations and gaps of the scenario are multiples of 0.5 ms, so a timer thread that
+/// sleeps through a deadline is late by at least 0.5 ms: the oracle allows 0.25 ms.
+const SLACK: u64 = 250_000;
 
 #[derive(Default, Clone)]
 struct Tm {
@@ -153,7 +156,7 @@ fn main() {
         }
         if late_timer {
             // the timer thread starts after some timers are already there
-            ctx.sleep_ns(400_000);
+            ctx.sleep_ns(500_000);
             ctx.log("tt.now", 0, ctx.now(), None);
             timer_start = ctx.now();
             timer_h = Some(spawn_timer(ctx));
@@ -189,6 +192,10 @@ fn main() {
                     ctx.fail(format!("timer {id} (deadline {}) fired only at {f} although nothing delayed the timer thread", t.deadline));
                 }
             }
+        }
+        if std::env::var("MAYV_TT_STATS").is_ok() {
+            let worst = g.tm.iter().filter(|t| t.added).filter_map(|t| t.fired.first().map(|f| f.saturating_sub(t.deadline.max(timer_start)))).max().unwrap_or(0);
+            println!("STATS worst_lateness={worst}");
         }
         drop(g);
         let _ = timer_h;
